@@ -136,7 +136,7 @@ class Dyn(Calls):
 
     # ------------------------------------------------------------------ equality / truth / isinstance on objects
     def equal(self, a, b, identity=False):
-        if not identity and not self.spec_mode:
+        if not identity and (not self.spec_mode or self.pure_code):
             prim = (VStr, VInt, VBool, VReal)
             if isinstance(a, VObj) and isinstance(b, prim):
                 b = VObj(self.box(b))
@@ -182,12 +182,29 @@ class Dyn(Calls):
     # ------------------------------------------------------------------ super()
     def ev_Call(self, n):
         f = n.func
-        if isinstance(f, ast.Name) and f.id == "super" and not n.args and not self.spec_mode:
+        if isinstance(f, ast.Name) and f.id == "super" and not self.spec_mode:
             fi = self.frame.fi
             if fi is None or fi.cls is None:
                 raise Unsupported("super() outside a method")
+            if n.args:
+                # super(C, self): supported when C is the enclosing class and self the method's receiver
+                if not (len(n.args) == 2 and isinstance(n.args[0], ast.Name) and n.args[0].id == fi.cls.split(".")[-1]
+                        and isinstance(n.args[1], ast.Name) and n.args[1].id == fi.params[0]):
+                    raise Unsupported("super(...) with arguments other than (enclosing class, self)")
             recv = self.st.env.get(fi.params[0])
             return VSuper(recv, fi.module, fi.cls)
+        if isinstance(f, ast.Attribute) and f.attr in self.reg.obj_method_hooks and f.attr in self.reg.attrs:
+            # a name that is both a data attribute of some classes and a method of others: in call position it is the method
+            base = self.ev(f.value)
+            if isinstance(base, VObj):
+                args = [self.ev(a) for a in n.args]
+                kwargs = {k.arg: self.ev(k.value) for k in n.keywords}
+                return self.call_method(base, f.attr, args, kwargs, n)
+            self._pre_base = (f.value, base)
+        if isinstance(f, ast.Name) and f.id == "set" and len(n.args) == 1 and isinstance(n.args[0], ast.GeneratorExp) and not n.keywords:
+            ge = n.args[0]
+            sc = ast.copy_location(ast.SetComp(elt=ge.elt, generators=ge.generators), ge)
+            return self.comprehension(sc, "set")
         return super().ev_Call(n)
 
     def get_attr(self, base, name, node=None):
@@ -275,7 +292,7 @@ class Dyn(Calls):
                 if vn:
                     self.st.env[vn] = self.from_term(d.val[k], d.ty.v)
                 return self.ev(n.key if what == "key" else n.value)
-            return self.in_state(snap.snapshot(), {}, self.old_state, f)
+            return self.in_state(snap.snapshot(), {}, self.old_state, f, pure_code=True)
         probe = self.fresh("dck", d.ty.k.sort())
         kty = self.type_of(at(probe, "key"))
         vty = self.type_of(at(probe, "val"))
@@ -520,7 +537,7 @@ class Dyn(Calls):
                 self.st.env = dict(env0)
                 self.st.env[var] = self.from_term(c.arr[i], c.ty.e)
                 return z3.And(*[self.truth(self.ev(x)) for x in g.ifs])
-            return self.in_state(snap.snapshot(), {}, self.old_state, f)
+            return self.in_state(snap.snapshot(), {}, self.old_state, f, pure_code=True)
         self.add_universal([TInt], lambda i: z3.Implies(z3.And(0 <= i, i < n_, cond(i)), rank[n_] > 0), "filter-nonempty-if-some-pass")
         w = self.fresh("fw", z3.IntSort())
         self.touch(TInt, w)
@@ -531,3 +548,77 @@ class Dyn(Calls):
         finally:
             self.pol = saved
         return box
+
+    # ------------------------------------------------------------------ sets built from iterables
+    def image_set(self, src_has, src_kty, elem_fn, ety, bounds=None):
+        """{elem_fn(x) | src_has(x)}: forward membership + ghost inverse (as for dict comprehensions)."""
+        mem2 = self.fresh("imgmem", z3.ArraySort(ety.sort(), z3.BoolSort()))
+        inv = self.fresh("imginv", z3.ArraySort(ety.sort(), src_kty.sort()))
+
+        def fwd(x):
+            y = self.to_term(elem_fn(x), ety)
+            self.touch(ety, y)
+            return z3.Implies(src_has(x), mem2[y])
+
+        def bwd(y):
+            x = inv[y]
+            self.touch(src_kty, x)
+            return z3.Implies(mem2[y], z3.And(src_has(x), self.to_term(elem_fn(x), ety) == y))
+        self.add_universal([src_kty], fwd, "image-set-forward")
+        self.add_universal([ety], bwd, "image-set-inverse")
+        cnt = self.fresh("imgcount", z3.IntSort())
+        self.assume(cnt >= 0)
+        return self.new_box(SetV(TSet(ety), mem2, cnt))
+
+    def comprehension(self, n, kind):
+        if kind == "set" and len(n.generators) == 1 and not n.generators[0].is_async and isinstance(n.generators[0].target, ast.Name):
+            g = n.generators[0]
+            it = self.ev(g.iter)
+            if isinstance(it, VCont):
+                c = self.cont(it)
+                var = g.target.id
+                snap = self.st.snapshot()
+                env0 = dict(self.st.env)
+                if isinstance(c, SetV):
+                    def at(x, what):
+                        def f():
+                            self.st.env = dict(env0)
+                            self.st.env[var] = self.from_term(x, c.ty.e)
+                            if what == "cond":
+                                return z3.And(*[self.truth(self.ev(t)) for t in g.ifs]) if g.ifs else z3.BoolVal(True)
+                            return self.ev(n.elt)
+                        return self.in_state(snap.snapshot(), {}, self.old_state, f, pure_code=True)
+                    probe = self.fresh("sp", c.ty.e.sort())
+                    ety = self.type_of(at(probe, "elt"))
+                    mem = c.mem
+                    return self.image_set(lambda x: z3.And(mem[x], at(x, "cond")), c.ty.e, lambda x: at(x, "elt"), ety)
+                if isinstance(c, ListV):
+                    def at(i, what):
+                        def f():
+                            self.st.env = dict(env0)
+                            self.st.env[var] = self.from_term(c.arr[i], c.ty.e)
+                            if what == "cond":
+                                return z3.And(*[self.truth(self.ev(t)) for t in g.ifs]) if g.ifs else z3.BoolVal(True)
+                            return self.ev(n.elt)
+                        return self.in_state(snap.snapshot(), {}, self.old_state, f, pure_code=True)
+                    probe = self.fresh("sp", z3.IntSort())
+                    ety = self.type_of(at(probe, "elt"))
+                    n_ = c.n
+                    return self.image_set(lambda i: z3.And(0 <= i, i < n_, at(i, "cond")), TInt, lambda i: at(i, "elt"), ety)
+                if isinstance(c, EmptyV):
+                    return self.new_box(EmptyV("set"))
+        return super().comprehension(n, kind)
+
+    def bi_set(self, args, kwargs, node):
+        if args and node is not None and node.args and isinstance(node.args[0], ast.GeneratorExp):
+            raise Unsupported("internal: set(genexp) is rewritten before evaluation")
+        if args and isinstance(args[0], VCont):
+            c = self.cont(args[0])
+            if isinstance(c, SetV):
+                return self.new_box(c)
+            if isinstance(c, EmptyV):
+                return self.new_box(EmptyV("set"))
+            if isinstance(c, ListV):
+                arr, n_ = c.arr, c.n
+                return self.image_set(lambda i: z3.And(0 <= i, i < n_), TInt, lambda i: self.from_term(arr[i], c.ty.e), c.ty.e)
+        return super().bi_set(args, kwargs, node)
